@@ -21,4 +21,6 @@ let () = iter_lines (fun line ->
        | JNone -> "no-cookie"
        | JUnsupported -> "unsupported"
        | JOk -> "ok " ^ csv_of_nlist (jar_request_header h))
+  | ["jmatch"; oo; dom; cpath; server; path] ->
+      if jar_matches (oo = "1") (nlist_of_csv dom) (nlist_of_csv cpath) (nlist_of_csv server) (nlist_of_csv path) then "1" else "0"
   | _ -> "bad-command")
